@@ -36,7 +36,7 @@ from ..facts import FuncFacts, facts_at, stmt_paths, count_paths, calls_hit
 from ..report import Ctx, AnalysisError
 from ..effects import field_writes, fact_set, stmt_has_self_call
 from ..flow import local_defs, resolve_local
-from .. import apirules, moderules
+from .. import apirules, moderules, ptrules
 
 D = "pydcop.algorithms.dpop"
 REL = "pydcop.dcop.relations"
@@ -136,13 +136,13 @@ def check(ctx: Ctx):
     ci = repo.func(PT, "ComputationPseudoTree.__init__")
     written = {c.args[0].value for c in ast.walk(ci.node) if isinstance(c, ast.Call) and call_name(c) == "PseudoTreeLink" and c.args and isinstance(c.args[0], ast.Constant)}
     gr = repo.func(PT, "get_dfs_relations")
-    read = {n_.comparators[0].value for n_ in ast.walk(gr.node) if isinstance(n_, ast.Compare) and norm(n_.left) == "l.type" and isinstance(n_.comparators[0], ast.Constant)}
-    ctx.check(written == read and len(read) == 4, "R-LINKTABLE", "pseudo-tree link kinds written == kinds read by get_dfs_relations", gr, gr.node, f"written {sorted(written)}, read {sorted(read)}")
+    rd_ok, rd_why, read = ptrules.reader_ok(gr.node)
+    ctx.check(written == read and len(read) == 4, "R-LINKTABLE", "pseudo-tree link kinds written == kinds read by get_dfs_relations", gr, gr.node, f"written {sorted(written)}, read {sorted(read)} {rd_why}")
     ini = repo.func(D, f"{C}.__init__")
     un = [s for s in walk_no_nested(ini.node) if isinstance(s, ast.Assign) and isinstance(s.value, ast.Call) and call_name(s.value) == "get_dfs_relations"]
     r = [x for x in walk_no_nested(gr.node) if isinstance(x, ast.Return)]
     ok = len(un) == 1 and isinstance(un[0].targets[0], ast.Tuple) and [norm(e) for e in un[0].targets[0].elts] == ["self._parent", "self._pseudo_parents", "self._children", "self._pseudo_children"] and \
-        len(r) == 1 and [norm(e) for e in r[0].value.elts] == ["parent", "pseudo_parents", "children", "pseudo_children"]
+        len(r) == 1 and rd_ok
     ctx.check(ok, "R-LINKTABLE", "DPOP unpacks (parent, pseudo_parents, children, pseudo_children) in the order get_dfs_relations returns them", ini, un[0] if un else ini.node, "")
     ctx.floor("R-FINISH", 8)
     ctx.floor("R-VALUE", 5)
